@@ -31,7 +31,8 @@ def _clauses(items, default_props=()):
 
 
 class LoopSpec:
-    def __init__(self, invariant=(), modifies=(), decreases=None, ghost_init=None):
+    def __init__(self, invariant=(), modifies=(), decreases=None, ghost_init=None, unroll=None):
+        self.unroll = unroll      # complete unrolling up to N iterations, with an unwinding assertion (no invariant needed)
         self.invariant = _clauses(invariant)
         self.modifies = [ast.parse(m.strip(), mode="eval").body if isinstance(m, str) else m for m in modifies]
         self.modifies_text = list(modifies)
